@@ -431,10 +431,18 @@ class Renamer(ast.NodeTransformer):
         return node
 
 
-def renamed(node, mapping):
-    import copy as _copy
+def fresh(node):
+    """Detached copy of a node (via unparse/parse; the model's nodes carry parent links, so deepcopy would copy the module)."""
+    src = ast.unparse(node)
+    if isinstance(node, ast.stmt):
+        return ast.parse(src).body[0]
+    if isinstance(node, ast.expr):
+        return ast.parse(src, mode="eval").body
+    raise TypeError(type(node).__name__)
 
-    return Renamer(mapping).visit(_copy.deepcopy(node))
+
+def renamed(node, mapping):
+    return Renamer(mapping).visit(fresh(node))
 
 
 def swap_map(pairs):
